@@ -30,6 +30,14 @@ type Container struct {
 	serviceErrorHandleFunc ServiceErrorHandleFunction
 	router                 RouteSelector // default is a CurlyRouter (RouterJSR311 is a slower alternative)
 	contentEncodingEnabled bool          // default is false
+	// registered with Handle ; Remove registers them again on the ServeMux it rebuilds
+	plainHandlers []plainHandler
+}
+
+// plainHandler is what Handle registered on the ServeMux for a pattern.
+type plainHandler struct {
+	pattern string
+	handler http.Handler
 }
 
 // NewContainer creates a new Container using a new ServeMux and default router (CurlyRouter)
@@ -159,6 +167,10 @@ func (c *Container) Remove(ws *WebService) error {
 			}
 			c.webServices = append(c.webServices, each)
 		}
+	}
+	// handlers registered with Handle are not WebServices ; they stay
+	for _, each := range c.plainHandlers {
+		newServeMux.Handle(each.pattern, each.handler)
 	}
 	c.ServeMux, c.isRegisteredOnRoot = newServeMux, newIsRegisteredOnRoot
 	return nil
@@ -355,7 +367,7 @@ func (c *Container) ServeHTTP(httpWriter http.ResponseWriter, httpRequest *http.
 
 // Handle registers the handler for the given pattern. If a handler already exists for pattern, Handle panics.
 func (c *Container) Handle(pattern string, handler http.Handler) {
-	c.ServeMux.Handle(pattern, http.HandlerFunc(func(httpWriter http.ResponseWriter, httpRequest *http.Request) {
+	wrapped := http.HandlerFunc(func(httpWriter http.ResponseWriter, httpRequest *http.Request) {
 		// Skip, if httpWriter is already an CompressingResponseWriter
 		if _, ok := httpWriter.(*CompressingResponseWriter); ok {
 			handler.ServeHTTP(httpWriter, httpRequest)
@@ -385,7 +397,11 @@ func (c *Container) Handle(pattern string, handler http.Handler) {
 		}
 
 		handler.ServeHTTP(writer, httpRequest)
-	}))
+	})
+	c.webServicesLock.Lock()
+	defer c.webServicesLock.Unlock()
+	c.ServeMux.Handle(pattern, wrapped)
+	c.plainHandlers = append(c.plainHandlers, plainHandler{pattern, wrapped})
 }
 
 // HandleWithFilter registers the handler for the given pattern.
